@@ -500,6 +500,22 @@ pub fn build_module(ctx: Arc<HCtx>) -> RpcModule<HCtx> {
 		}
 	})
 	.unwrap();
+	// --- handlers whose (successful) result cannot be serialised: [k] = how many good elements come first
+	m.register_method("unser_sync", |p, c, _| {
+		c.record("unser_sync", &p, "run");
+		Ok::<_, ErrorObjectOwned>(Unser(p.parse::<Vec<u8>>().ok().and_then(|v| v.first().copied()).unwrap_or(0)))
+	})
+	.unwrap();
+	m.register_async_method("unser_async", |p, c, _| async move {
+		c.record("unser_async", &p, "run");
+		Ok::<_, ErrorObjectOwned>(Unser(p.parse::<Vec<u8>>().ok().and_then(|v| v.first().copied()).unwrap_or(0)))
+	})
+	.unwrap();
+	m.register_blocking_method("unser_blocking", |p, c, _| {
+		c.record("unser_blocking", &p, "run");
+		Ok::<_, ErrorObjectOwned>(Unser(p.parse::<Vec<u8>>().ok().and_then(|v| v.first().copied()).unwrap_or(0)))
+	})
+	.unwrap();
 	// --- subscriptions (actor handlers)
 	m.register_subscription("sub_a", "notif_a", "unsub_a", |p, pending, c, ext| {
 		let conn = ext.get::<jsonrpsee_core::server::ConnectionId>().map(|c| c.0).unwrap_or(usize::MAX);
@@ -523,9 +539,25 @@ pub fn build_module(ctx: Arc<HCtx>) -> RpcModule<HCtx> {
 	m
 }
 
+/// A value whose serialisation fails after `self.0 % 4` elements of a sequence have been written
+#[derive(Clone, Debug)]
+pub struct Unser(pub u8);
+
+impl Serialize for Unser {
+	fn serialize<S: serde::Serializer>(&self, ser: S) -> Result<S::Ok, S::Error> {
+		use serde::ser::SerializeSeq;
+		let mut seq = ser.serialize_seq(None)?;
+		for k in 0..(self.0 % 4) {
+			seq.serialize_element(&k)?;
+		}
+		Err(serde::ser::Error::custom("this value cannot be serialised"))
+	}
+}
+
 pub fn is_registered_call(name: &str) -> bool {
 	matches!(
 		name,
+		"unser_sync" | "unser_async" | "unser_blocking" |
 		"echo_sync" | "typed_sync" | "fail_sync" | "big_sync" | "echo_async" | "typed_async" | "fail_async" | "big_async" | "gated_async"
 			| "echo_blocking" | "typed_blocking" | "fail_blocking" | "big_blocking" | "gated_blocking" | "blocking_panic" | "guard_probe"
 	)
